@@ -310,7 +310,7 @@ class Sockets(pipeline.Stream):
                 for r in range(per_config):
                     c += 1
                     n = [1, rng.randint(2, 6), rng.choice([8, 12, 16])][r % 3] if tier == "quick" else rng.choice([1, 2, 3, 4, 5, 6, 8, 10, 12, 16])
-                    kinds = KINDS_MODEL + ["slow", "slow", "long_clen"] + (KINDS_RAW if r % 2 else [])
+                    kinds = KINDS_MODEL + ["slow", "slow", "long_clen", "abandon"] + (KINDS_RAW if r % 2 else [])
                     salt = "s%d" % c
                     conns = [gen_conn(rng, i, kinds, salt) for i in range(n)]
                     followups = [gen_conn(rng, 100 + i, ["call", "call", "notify", "invalid_json", "batch"], salt) for i in range(2)]
